@@ -423,11 +423,17 @@ var tokenPool = []string{
 	"1", "0", "-1", "1e999", "0x", "99999999999999999999999", "true", "null", "''", "\"\"",
 }
 
+var lastLineScalars = []string{
+	`"a\nb\nc"`, `"\n\n"`, `"\n\n\n{{ $labels.x }}"`, `"groups:\n- name: x\n  rules: []\n"`, `'a
+
+  b'`, `|`, `>-`, `|2`, `"`, `'`, `"\`, `!!binary "AA\n\n=="`, `&a "x\ny\nz"`, `"- record: a\n  expr: b\n"`,
+}
+
 // Mutate applies n random byte-, line- or token-level edits.
 func Mutate(r *rand.Rand, s string, n int) string {
 	b := []byte(s)
 	for i := 0; i < n; i++ {
-		switch r.Intn(12) {
+		switch r.Intn(13) {
 		case 0: // delete a byte
 			if len(b) > 0 {
 				p := r.Intn(len(b))
@@ -499,6 +505,19 @@ func Mutate(r *rand.Rand, s string, n int) string {
 			b = []byte(s)
 		case 11: // strip final newline
 			b = []byte(strings.TrimRight(string(b), "\n"))
+		case 12: // a hostile scalar on the very last line of the file (code that looks at "the next line" has none)
+			s := strings.TrimRight(string(b), "\n")
+			ind := ""
+			if r.Intn(2) == 0 {
+				// same indentation as the current last line
+				last := s[strings.LastIndex(s, "\n")+1:]
+				ind = last[:len(last)-len(strings.TrimLeft(last, " "))]
+			}
+			s += "\n" + ind + "zz: " + lastLineScalars[r.Intn(len(lastLineScalars))]
+			if r.Intn(2) == 0 {
+				s += "\n"
+			}
+			b = []byte(s)
 		}
 		if len(b) > 64*1024 {
 			b = b[:64*1024]
@@ -550,6 +569,16 @@ func StressDocs() []string {
 		"groups:\n# pint ignore/begin\n{{ template }}\n# pint ignore/end\n- name: g\n  rules: []\n",
 		"groups:\n- name: g\n  rules:\n  - alert: a\n    expr: up\n    annotations:\n      s: 'it''s {{ $labels.x }}'\n",
 		"groups:\n- name: g\n  rules:\n  - alert: a\n    expr: up\n    labels:\n      s: \"\\\"{{ $value }}\\\"\"\n",
+	}
+	// scalars with several (escaped) newlines that start on the last line of the file or of an embedded document
+	for _, sc := range lastLineScalars {
+		out = append(out,
+			"groups:\n- name: g\n  rules:\n  - record: a\n    expr: up\nnote: "+sc,
+			"groups:\n- name: g\n  rules:\n  - record: a\n    expr: up\nnote: "+sc+"\n",
+			"note: "+sc+"\n",
+			"data:\n  rules.yml: |\n    groups:\n    - name: g\n      rules:\n      - record: a\n        expr: up\n    note: "+sc+"\n",
+			"groups:\n- name: g\n  rules:\n  - alert: a\n    expr: up\n    annotations:\n      note: "+sc,
+		)
 	}
 	for _, t := range HostileTemplates() {
 		out = append(out, "groups:\n- name: g\n  rules:\n  - alert: a\n    expr: sum(up) by (job) > 0\n    labels:\n      l: '"+strings.ReplaceAll(t, "'", "''")+"'\n    annotations:\n      a: '"+strings.ReplaceAll(t, "'", "''")+"'\n")
